@@ -54,6 +54,7 @@ type Contract struct {
 	File          string
 	Line          int
 	Deterministic bool // output must not depend on map iteration order
+	FrameCaller   bool // the declared assigns are memory of the caller: judged at call sites (frame mode)
 	Counted       bool // every call increments ghost("calls:<Key>")
 	Trusted       bool // contract is assumed, body not verified (listed in evidence)
 	NoFrame       bool
@@ -95,7 +96,7 @@ type ContractSet struct {
 }
 
 var clauseKeywords = map[string]bool{"func": true, "interface": true, "spec": true, "abstract": true, "requires": true, "ensures": true,
-	"assigns": true, "loop": true, "decreases": true, "arith": true, "pure": true, "lemma": true, "trusted": true, "noframe": true, "invariant": true, "nonnil": true, "names": true, "ospec": true, "checks": true, "counted": true, "axiom": true, "monitor": true, "scope": true, "deterministic": true}
+	"assigns": true, "loop": true, "decreases": true, "arith": true, "pure": true, "lemma": true, "trusted": true, "noframe": true, "invariant": true, "nonnil": true, "names": true, "ospec": true, "checks": true, "counted": true, "axiom": true, "monitor": true, "scope": true, "deterministic": true, "framecaller": true}
 
 func loadContracts(files []string) (*ContractSet, error) {
 	cs := &ContractSet{funcs: map[string]*Contract{}, ifaces: map[string]*Contract{}, specs: map[string]*specFn{}, invs: map[string][]*TypeInv{}, nonnil: map[string]bool{}}
@@ -307,6 +308,10 @@ func (cs *ContractSet) loadFile(path string) error {
 		case "deterministic":
 			if cur != nil {
 				cur.Deterministic = true
+			}
+		case "framecaller":
+			if cur != nil {
+				cur.FrameCaller = true
 			}
 		case "noframe":
 			if cur != nil {
